@@ -49,6 +49,7 @@ type opDesc struct {
 	hash    cid.Cid
 	writer  int
 	proxy   bool
+	bounded bool // Join with a size bound far above the merged size (must behave like the unbounded merge)
 }
 
 type opRec struct {
@@ -213,7 +214,11 @@ func (w *e1World) exec(t *task, tc *taskCtx, d opDesc) {
 		if d.proxy {
 			src = proxyLog{src}
 		}
-		_, rec.err = l.Join(src, -1)
+		size := -1
+		if d.bounded {
+			size = 100000
+		}
+		_, rec.err = l.Join(src, size)
 	case kValues:
 		rec.seq = hashSeq(l.Values())
 	case kHeads:
@@ -368,6 +373,7 @@ func genE1(r *Run, prop string) (*e1World, *e1Config) {
 				}
 			}
 			d.proxy = r.Choose("proxy", 4) != 0
+			d.bounded = r.Choose("bounded", 4) == 0
 			d.pc = 1 << uint(r.Choose("pc", 4))
 			d.writer = r.Choose("writer", len(ws))
 			pseq++
